@@ -4,6 +4,7 @@ CONSTANTS
   PNames = {"value", "target", "x", "y"}
   ExtraM = {"zz"}
   ExtraP = {"cmd"}
+  CmdP = {"cmd"}
   Wires = {"w1", "w2", "wbad"}
   ValidW = {"w1", "w2"}
   ENames = {"HardwareError", "Bogus"}
